@@ -38,29 +38,29 @@ PROPS = {
         'Theorems quantify over all byte strings, default fields and oracles. The correspondence check ties the model to /repo on every run; PANIC and HANG (watchdog) are observables.',
         ['oracle record answers as Go stdlib (served by the Go helper, sampled by the run)', 'Go runtime stack exhaustion beyond ~10^5 nesting is outside the model']),
     'C02': P(
-        ['C02_string_value_stays_in_its_literal', 'C02_field_name_is_one_identifier', 'C02_fragment_sql_is_one_confined_expression'],
+        ['C02_string_value_stays_in_its_literal', 'C02_field_name_is_one_identifier', 'C02_fragment_sql_is_one_confined_expression', 'C02_rendered_fragment_sql_is_one_confined_expression'],
         [('corpus', 0), ('rand', 5000), ('quote', 2500), ('inject', 2500), ('scale-list', 0), ('scale-names', 0), ('scale-values', 0), ('scale-digits', 0)],
         [('corpus', 0), ('rand', 60000), ('quote', 30000), ('inject', 30000), ('enum', 5000), ('scale-list', 0), ('scale-names', 0), ('scale-values', 0), ('scale-digits', 0)],
         PARSE + SQL + ['SqlToks'],
-        'partial: proved at scanner level (a string value is read back by the PostgreSQL scanner model as one constant equal to the value, for all byte strings; a field name as one quoted identifier) and at grammar level for the filterable fragment (for every tree of the fragment, any depth: the token sequence of its SQL - Spec/SqlFrag.tr, compared per case with the scanner model on the implementation text - is accepted by the PostgreSQL expression grammar as one expression built from allowed constructs only). Outside the fragment (floats, string ranges, regular expressions, parameterized text) and for column/constant provenance the clause is decided by running the PostgreSQL model (coq/Model/PgModel.v, extracted) on every SQL text the implementation returns.',
+        'partial: proved at scanner level (a string value is read back by the PostgreSQL scanner model as one constant equal to the value, for all byte strings; a field name as one quoted identifier) and at grammar level for the filterable fragment (for every tree of the fragment, any depth: the token sequence of its SQL - Spec/SqlFrag.tr, compared per case with the scanner model on the implementation text - is accepted by the PostgreSQL expression grammar as one expression built from allowed constructs only; and end to end: whenever the model Render returns a text for such a tree, scanner and grammar model read it as that one expression). Outside the fragment (floats, string ranges, regular expressions, parameterized text) and for column/constant provenance the clause is decided by running the PostgreSQL model (coq/Model/PgModel.v, extracted) on every SQL text the implementation returns.',
         'every SQL text ToPostgres/ToParameterizedPostgres returns on generated queries (hostile field names and values: quotes, backslashes, semicolons, comment openers, NUL, invalid UTF-8, NaN/Inf, >63-byte names); non-trivial = rendering succeeded and the text was read by the PostgreSQL model',
         'C02_check: pg_read(sql) must succeed, be built from allowed nodes only, every column must be a field/default field of the query and every string constant a (translated) value of the query.',
         ['PgModel is a conservative model of scan.l/gram.y validated one-directionally against pg_query in design; not re-validated at run time']),
     'C03': P(
-        ['C03_pattern_translation_preserves_meaning', 'C03_grammar_reads_the_query_structure', 'C03_sql_true_on_exactly_the_rows_of_the_query'],
+        ['C03_pattern_translation_preserves_meaning', 'C03_grammar_reads_the_query_structure', 'C03_sql_true_on_exactly_the_rows_of_the_query', 'C03_rendered_sql_is_true_on_exactly_the_rows_of_the_query'],
         [('corpus', 0), ('sem', 1700), ('sem', 1700), ('sem', 1700), ('rand', 2000), ('scale-list', 0), ('scale-digits', 0), ('scale-values', 0), ('scale-names', 0)],
         [('corpus', 0), ('sem', 20000), ('sem', 20000), ('sem', 20000), ('sem', 20000), ('rand', 20000), ('scale-list', 0), ('scale-digits', 0), ('scale-values', 0), ('scale-names', 0)],
         PARSE + ['Render', 'ToPostgres', 'SqlToks'],
-        'proved for the fragment with integer and string constants (Spec/SqlFrag.tr): for every tree (AND, OR, NOT, +, - over equality, comparisons, integer ranges with every inclusivity and open ends, value lists, wildcard patterns; any depth) PostgreSQL grammar reads from the SQL token sequence exactly the same Boolean combination of the same leaf predicates, and that expression is true on exactly the rows on which the query is true, for every row (numbers compare numerically - the decimal text of an integer denotes it - strings as strings, patterns by the translation theorem). The token sequence is tied to the renderer per case (scanner model on the implementation text = tr). Not proved: ToPostgres succeeds (per case), floats (their text comes from strconv: oracle), string ranges (K1, K2), the scanner step as a theorem over all texts. Those and everything else are decided by the executable semantics: the meaning of the query text (Spec/QuerySem.qsem on the model parse) against the meaning of the SQL text as the PostgreSQL model reads it (Spec/SqlSem.ssem on PgModel.pg_read), on probe rows hitting every region cut out by the query constants.',
+        'proved for the fragment with integer and string constants (Spec/SqlFrag.tr): for every tree (AND, OR, NOT, +, - over equality, comparisons, integer ranges with every inclusivity and open ends, value lists, wildcard patterns; any depth) PostgreSQL grammar reads from the SQL token sequence exactly the same Boolean combination of the same leaf predicates, and that expression is true on exactly the rows on which the query is true, for every row (numbers compare numerically - the decimal text of an integer denotes it - strings as strings, patterns by the translation theorem). And end to end on the model: whenever the model Render returns a text s for such a tree (field names of at most 63 bytes, range integers within int64, patterns not of the /.../ form), the PostgreSQL scanner and grammar models read from s exactly that expression (Proofs/SqlText: Render text = btxt; Proofs/SqlLex: pg_lex btxt = tr tokens; one lemma per token kind of scan.l that occurs). The same token sequence is also compared per case with the scanner model on the implementation text. Not proved: ToPostgres succeeds (per case), floats (their text comes from strconv: oracle), string ranges (K1, K2). Those and everything else are decided by the executable semantics: the meaning of the query text (Spec/QuerySem.qsem on the model parse) against the meaning of the SQL text as the PostgreSQL model reads it (Spec/SqlSem.ssem on PgModel.pg_read), on probe rows hitting every region cut out by the query constants.',
         'fragment trees (equality, comparisons, ranges with every bound kind x inclusivity, value lists, patterns, AND/OR/NOT/+/-, parentheses, juxtaposition), each evaluated on up to 300 probe rows (all constants, +-1, all pairwise midpoints; strings: each constant, just above, just below, pattern instances and near misses); non-trivial = rendered and read back by the PostgreSQL model',
         'C03_check evaluates qsem on the model parse against ssem on pg_read of the implementation SQL on probe rows; check_sqltoks compares the scanner model on the SQL text with SqlFrag.tr of the returned tree',
         ['PostgreSQL reading of the SQL text is the PgModel one; string order is byte order on both sides']),
     'C04': P(
-        ['C04_placeholders_match_parameters', 'C04_parameters_are_the_values', 'C04_sql_text_independent_of_values', 'C04_render_param_returns'],
+        ['C04_placeholders_match_parameters', 'C04_parameters_are_the_values', 'C04_parameterized_sql_selects_the_rows_of_the_query', 'C04_substituted_parameters_equivalent_to_inline', 'C04_sql_text_independent_of_values', 'C04_render_param_returns'],
         [('corpus', 0), ('rand', 4000), ('subst', 1500), ('quote', 1000), ('sem', 2500), ('scale-list', 0), ('scale-giant', 0), ('scale-digits', 0)],
         [('corpus', 0), ('rand', 60000), ('subst', 20000), ('quote', 20000), ('sem', 40000), ('scale-list', 0), ('scale-giant', 0), ('scale-digits', 0)],
-        PARSE + SQL,
-        'partial: clause (a) placeholder count = parameter count proved for every tree of parser shape outside K13; clause (b) parameters = the values in left-to-right order with their Go kinds proved for every tree of parser shape; clause (d) same-kind trees render the same parameterized text proved for every tree of any shape; RenderParam total. Clause (c) equivalence after substitution is decided by C04_check on the implementation observations (probe rows) and by the correspondence.',
+        PARSE + SQL + ['SqlToks', 'SqlToksP'],
+        'partial: clause (a) placeholder count = parameter count proved for every tree of parser shape outside K13; clause (b) parameters = the values in left-to-right order with their Go kinds proved for every tree of parser shape; clause (d) same-kind trees render the same parameterized text proved for every tree of any shape; clause (c) proved for the fragment with integer and string constants (Spec/SqlFragP.trp): PostgreSQL grammar reads from the parameterized token sequence an expression that, with the returned parameters bound, is true on exactly the rows of the query, hence equivalent to the inline expression, for every tree of any depth and every row (token sequence and parameter list tied to the implementation per case: correspondence SqlToksP); RenderParam total. Outside that fragment (floats, string ranges, K-classes) clause (c) is decided by C04_check on probe rows.',
         'random structured queries, same-kind value substitutions (pairs), quoted/escaped values; non-trivial = both renderers succeeded',
         'C04_check on (inline, parameterized) observation pairs and on substitution pairs.',
         ['oracle fact: ParseFloat rejects a text starting with a quote']),
